@@ -272,3 +272,83 @@ def build_package_tree(rng, root, seed):
     mk(pkg, 0, True)
     listing = sorted(os.path.relpath(os.path.join(dp, f), root) for dp, _, fn in os.walk(root) for f in fn)
     return pkg, exp, listing
+
+
+# --------------------------------------------------------------------------
+# modules whose doctests have by-construction outcomes (C10 C15)
+# --------------------------------------------------------------------------
+
+OUTCOMES = {
+    # kind: (body lines, outcome, does its body call mark())
+    'pass': (['>>> mark("{id}")', '>>> print("a")', 'a'], 'passed', True),
+    'pass_nowant': (['>>> mark("{id}")'], 'passed', True),
+    'pass_multi': (['>>> mark("{id}")', '>>> x = [1,', '...      2]', '>>> print(x)', '[1, 2]'], 'passed', True),
+    'fail_output': (['>>> mark("{id}")', '>>> print("a")', 'b'], 'failed', True),
+    'fail_exc': (['>>> mark("{id}")', '>>> raise ValueError("v")'], 'failed', True),
+    'fail_late': (['>>> mark("{id}")', '>>> print("a")', 'a', '>>> print("c")', 'd'], 'failed', True),
+    'all_skipped': (['>>> # xdoctest: +SKIP', '>>> mark("{id}")'], 'skipped', False),
+    'all_skipped_req': (['>>> # xdoctest: +REQUIRES(module:xv_nx_mod_zz)', '>>> mark("{id}")', 'BOGUS'], 'skipped', False),
+    'partly_skipped': (['>>> mark("{id}")', '>>> print("a")  # xdoctest: +SKIP', 'zzz', '>>> print("b")', 'b'], 'passed', True),
+    'expected_exc': (['>>> mark("{id}")', '>>> raise ValueError("v")', 'Traceback (most recent call last):',
+                      'ValueError: v'], 'passed', True),
+    'disabled': (['>>> # DISABLE_DOCTEST', '>>> mark("{id}")', '>>> raise ValueError("v")'], 'disabled', True),
+    'disabled_script': (['>>> # SCRIPT', '>>> mark("{id}")'], 'disabled', True),
+    'comment_only': (['>>> # just a comment'], 'skipped', False),
+}
+
+OUTCOME_PRELUDE = '''import os
+RUNLOG = []
+def mark(i):
+    RUNLOG.append(i)
+    with open(os.environ["XV_MARKFILE"], "a") as f:
+        f.write(i + "\\n")
+
+'''
+
+
+class OutcomeModule(object):
+    def __init__(self):
+        self.src = ''
+        self.tests = []      # dicts: ident, callname, kind, outcome, id, marks
+
+    def enabled(self):
+        return [t for t in self.tests if t['outcome'] != 'disabled']
+
+    def counts(self):
+        import collections
+        return collections.Counter(t['outcome'] for t in self.enabled())
+
+
+def outcome_module(rng, uid, layout='google', kinds=None, n=None, in_class=True):
+    """layout google: every doctest in an 'Example:' block; freeform: bare prompts"""
+    kinds = kinds or list(OUTCOMES)
+    n = n or rng.randint(1, 8)
+    om = OutcomeModule()
+    src = [OUTCOME_PRELUDE]
+    k = 0
+    pending_class = None
+    for _ in range(n):
+        kind = rng.choice(kinds)
+        body, outcome, marks = OUTCOMES[kind]
+        i = 's%sk%d' % (uid, k)
+        method = in_class and rng.random() < 0.25
+        if method:
+            cn = 'K%d' % k
+            src += ['class %s:' % cn, '    def meth(self):']
+            ind = '        '
+            callname = '%s.meth' % cn
+        else:
+            src += ['def fn%d():' % k]
+            ind = '    '
+            callname = 'fn%d' % k
+        src += [ind + '"""', ind + 'Summary.', '']
+        if layout == 'google':
+            src += [ind + 'Example:'] + [ind + '    ' + ln.replace('{id}', i) for ln in body]
+        else:
+            src += [ind + ln.replace('{id}', i) for ln in body]
+        src += [ind + '"""', ind + 'return 1', '']
+        om.tests.append({'ident': '%s:0' % callname, 'callname': callname, 'kind': kind, 'outcome': outcome,
+                         'id': i, 'marks': marks})
+        k += 1
+    om.src = '\n'.join(src) + '\n'
+    return om
